@@ -57,8 +57,12 @@ class Rocket(_PanelToTabularTransformer):
         """
         X = check_X(X, coerce_to_numpy=True)
         _, self.n_columns, n_timepoints = X.shape
-        # only a Python int can be used as a seed (compatibility with Numba)
-        seed = self.random_state if isinstance(self.random_state, int) else None
+        # only an integer can be used as a seed (compatibility with Numba)
+        seed = (
+            int(self.random_state)
+            if isinstance(self.random_state, (int, np.integer))
+            else None
+        )
         self.kernels = _generate_kernels(
             n_timepoints, self.num_kernels, self.n_columns, seed
         )
